@@ -3,7 +3,10 @@ C07 (run loop) — the master scheduler's `_do_tick` loop and its `new_wakeup` e
 (`Core/MasterLoop.lean`): for EVERY interleaving of `add_wakeup` calls, expiries of the sleep
 and runs of the event-waiting task, the repaired loop never fails `assert when is not None`,
 never waits on the event while a wakeup exists, never deadlocks while there is work, and
-never deletes a missing entry.  The original loop fails on the history of defect F16.
+never deletes a missing entry, and every tick serves exactly the components that hold the
+minimum entry at the moment the tick starts (second repair: `get_first_wakeups` is
+re-evaluated after the race).  The original loop fails on the history of defect F16 and
+serves a stale set when a wakeup arrives while the sleep is expiring.
 -/
 import TickitModel.Lemmas.MasterLoopLemmas
 
@@ -13,49 +16,43 @@ namespace Tickit
 `self.wakeups` is a dict; the chosen components keep an entry until served; the task `new`
 completes only after an uncleared `set()`; the assertion has not failed; and while the loop
 waits on the event the flag says EXACTLY whether a wakeup exists. -/
-theorem loop_invariant (acts : List LoopAct) : LoopInv (({} : LoopSt).run true acts) :=
+theorem loop_invariant (acts : List MLoopAct) : LoopInv (({} : MLoopSt).run true acts) :=
   LoopInv.init.run acts
 
-theorem loop_invariant_step (s s' : LoopSt) (a : LoopAct) (h : LoopInv s)
+theorem loop_invariant_step (s s' : MLoopSt) (a : MLoopAct) (h : LoopInv s)
     (hs : s.step true a = some s') : LoopInv s' :=
   h.step hs
 
 /-- **L1** the repaired loop never reaches the failed assertion. -/
-theorem loop_never_dies (acts : List LoopAct) : (({} : LoopSt).run true acts).pc ≠ .dead :=
+theorem loop_never_dies (acts : List MLoopAct) : (({} : MLoopSt).run true acts).pc ≠ .dead :=
   (loop_invariant acts).alive
 
 /-- **L2** the repaired loop never waits on the event while a wakeup exists: if it is inside
 `await self.new_wakeup.wait()` and `self.wakeups` is not empty, the flag is set (so `step`
 is enabled). -/
-theorem loop_never_waits_with_work (acts : List LoopAct) :
-    let s := ({} : LoopSt).run true acts
+theorem loop_never_waits_with_work (acts : List MLoopAct) :
+    let s := ({} : MLoopSt).run true acts
     s.pc = .waiting → s.wake ≠ [] → s.flag = true := by
   intro s hpc hne
   exact ((loop_invariant acts).waitIff hpc).mpr hne
 
 /-- the converse: the repaired loop is woken only when there is a wakeup (no stale flag:
 this is what the `clear()` inside the `while` buys). -/
-theorem loop_woken_only_for_work (acts : List LoopAct) :
-    let s := ({} : LoopSt).run true acts
+theorem loop_woken_only_for_work (acts : List MLoopAct) :
+    let s := ({} : MLoopSt).run true acts
     s.pc = .waiting → s.flag = true → s.wake ≠ [] := by
   intro s hpc hf
   exact ((loop_invariant acts).waitIff hpc).mp hf
 
 /-- at `top` with a wakeup, `get_first_wakeups` returns a time (for any dict at all). -/
 theorem first_wakeups_some (w : Wakeups) (h : w ≠ []) :
-    ∃ cs t, firstWakeups w = (cs, some t) := by
-  cases hf : firstWakeups w with
-  | mk cs o =>
-    cases o with
-    | some t => exact ⟨cs, t, rfl⟩
-    | none =>
-      have : (firstWakeups w).2 = none := by rw [hf]
-      exact absurd ((firstWakeups_none w).mp this) h
+    ∃ cs t, firstWakeups w = (cs, some t) :=
+  firstWakeups_some_of_ne_nil w h
 
 /-- the only state of the repaired loop in which no scheduler/loop action is enabled is the
 legitimate idle state: waiting on the event, no wakeup, flag clear. -/
-theorem loop_quiescent_iff (acts : List LoopAct) :
-    let s := ({} : LoopSt).run true acts
+theorem loop_quiescent_iff (acts : List MLoopAct) :
+    let s := ({} : MLoopSt).run true acts
     (s.step true .step = none ∧ s.step true .sleepExpires = none ∧
         s.step true .newTaskRuns = none) ↔
       (s.pc = .waiting ∧ s.wake = [] ∧ s.flag = false) := by
@@ -66,9 +63,9 @@ theorem loop_quiescent_iff (acts : List LoopAct) :
   constructor
   · rintro ⟨h1, h2, h3⟩
     cases hpc : s.pc with
-    | top => simp only [LoopSt.step, hpc] at h1; split at h1 <;> simp at h1
+    | top => simp only [MLoopSt.step, hpc] at h1; split at h1 <;> simp at h1
     | waiting =>
-      simp only [LoopSt.step, hpc] at h1
+      simp only [MLoopSt.step, hpc] at h1
       split at h1
       · simp at h1
       · rename_i hf
@@ -77,18 +74,18 @@ theorem loop_quiescent_iff (acts : List LoopAct) :
         have := hw hpc
         rw [hf'] at this
         simpa using this
-    | sleeping cs w => simp [LoopSt.step, hpc] at h2
-    | sleptNotResumed cs w => simp only [LoopSt.step, hpc] at h1; split at h1 <;> simp at h1
-    | ticking cs w => simp [LoopSt.step, hpc] at h1
+    | sleeping cs w => simp [MLoopSt.step, hpc] at h2
+    | sleptNotResumed cs w => simp only [MLoopSt.step, hpc] at h1; split at h1 <;> simp at h1
+    | ticking cs w => simp [MLoopSt.step, hpc] at h1
     | dead => exact absurd hpc hal
   · rintro ⟨hpc, _, hf⟩
-    simp [LoopSt.step, hpc, hf, LoopPc.isRacing]
+    simp [MLoopSt.step, hpc, hf, MLoopPc.isRacing]
 
 /-- **L3** no deadlock while there is work: in every reachable state of the repaired loop
 with a wakeup, the scheduler's own `step`, the expiry of the sleep or the run of the
 event-waiting task is enabled; and at `top` `get_first_wakeups` returns a time. -/
-theorem loop_progress (acts : List LoopAct) :
-    let s := ({} : LoopSt).run true acts
+theorem loop_progress (acts : List MLoopAct) :
+    let s := ({} : MLoopSt).run true acts
     s.wake ≠ [] →
       ((s.step true .step).isSome = true ∨ (s.step true .sleepExpires).isSome = true ∨
         (s.step true .newTaskRuns).isSome = true) ∧
@@ -110,71 +107,164 @@ theorem loop_progress (acts : List LoopAct) :
   · intro hpc
     obtain ⟨cs, w, hf⟩ := first_wakeups_some s.wake hne
     refine ⟨cs, w, hf, ?_⟩
-    simp [LoopSt.step, hpc, hne, LoopSt.choose, hf]
+    simp [MLoopSt.step, hpc, hne, MLoopSt.choose, hf]
 
-/-- **L4** (repaired AND original loop) whenever the sleep has expired, every chosen
-component still has an entry in `self.wakeups`: `del self.wakeups[c]` cannot raise
-`KeyError`.  (The entries existed when chosen; in between they are only overwritten.) -/
-theorem served_entries_exist (fixed : Bool) (acts : List LoopAct) (cs : List Comp)
+/-- the re-evaluated `get_first_wakeups` of the repaired loop returns a time (its
+`assert when is not None` cannot fail either): while the sleep races there is a wakeup. -/
+theorem loop_reevaluation_some (acts : List MLoopAct) (cs : List Comp) (w : SimTime) :
+    let s := ({} : MLoopSt).run true acts
+    s.pc = .sleptNotResumed cs w → s.flagTaskDone = false →
+      ∃ cs' w', firstWakeups s.wake = (cs', some w') ∧
+        s.step true .step = some { s with wake := delWakeups s.wake cs', pc := .ticking cs' w' } := by
+  intro s hpc hft
+  have hb : LoopBase s := LoopBase.init.run acts
+  obtain ⟨cs', w', hf, he⟩ :=
+    serveFirst_of_ne_nil s (hb.racingWork (by simp [hpc, MLoopPc.isRacing]))
+  exact ⟨cs', w', hf, by simp [MLoopSt.step, hpc, hft, he]⟩
+
+/-- the only `step` that ends in `ticking` is the one out of `sleptNotResumed`; in the
+repaired loop it serves the re-evaluated first wakeups. -/
+theorem step_into_ticking (s s' : MLoopSt) (cs' : List Comp) (w' : SimTime)
+    (hs : s.step true .step = some s') (hpc' : s'.pc = .ticking cs' w') :
+    (∃ cs w, s.pc = .sleptNotResumed cs w) ∧ firstWakeups s.wake = (cs', some w') ∧
+      s'.wake = delWakeups s.wake cs' := by
+  simp only [MLoopSt.step] at hs
+  split at hs
+  · split at hs
+    · simp only [Option.some.injEq] at hs; subst hs; simp at hpc'
+    · simp only [Option.some.injEq] at hs; subst hs
+      unfold MLoopSt.choose at hpc'; split at hpc' <;> simp at hpc'
+  · split at hs
+    · simp only [Option.some.injEq] at hs; subst hs; simp at hpc'
+    · simp at hs
+  · split at hs
+    · simp only [Option.some.injEq] at hs; subst hs; simp at hpc'
+    · simp at hs
+  · rename_i cs w hpc
+    split at hs
+    · simp only [Option.some.injEq] at hs; subst hs; simp at hpc'
+    · simp only [Option.some.injEq, if_true] at hs; subst hs
+      refine ⟨⟨cs, w, hpc⟩, ?_⟩
+      unfold MLoopSt.serveFirst at hpc' ⊢
+      split at hpc'
+      · rename_i cs'' w'' hf
+        simp only [MLoopPc.ticking.injEq] at hpc'
+        obtain ⟨h1, h2⟩ := hpc'
+        subst h1; subst h2
+        exact ⟨hf, rfl⟩
+      · simp at hpc'
+  · simp only [Option.some.injEq] at hs; subst hs; simp at hpc'
+  · simp at hs
+
+/-- **L4 (repaired loop)** when the repaired loop starts a tick `ticking cs' w'` from a
+reachable state with wakeups `wk`, the served set is EXACTLY the set of components holding
+the minimum entry at that moment: every wakeup registered before the tick starts with the
+minimum time is served by THIS tick, and nothing else is.  In particular every served
+component has an entry (`del self.wakeups[c]` cannot raise `KeyError`); after the step the
+served entries are gone and the others are untouched. -/
+theorem tick_serves_all_first_wakeups (acts : List MLoopAct) (s' : MLoopSt) (cs' : List Comp)
+    (w' : SimTime) :
+    let s := ({} : MLoopSt).run true acts
+    s.step true .step = some s' → s'.pc = .ticking cs' w' →
+      (∀ c, c ∈ cs' ↔ alookup s.wake c = some w') ∧
+      (∀ c t, alookup s.wake c = some t → w' ≤ t) ∧
+      (∀ c, alookup s'.wake c = if c ∈ cs' then none else alookup s.wake c) := by
+  intro s hs hpc'
+  have hb : LoopBase s := LoopBase.init.run acts
+  obtain ⟨_, hf, hw⟩ := step_into_ticking s s' cs' w' hs hpc'
+  obtain ⟨h1, h2, _, _⟩ := firstWakeups_spec s.wake hb.uniq cs' w' hf
+  exact ⟨h1, h2, fun c => by rw [hw, delWakeups_lookup _ hb.uniq]⟩
+
+/-- **L4** (repaired AND original loop) whenever the sleep has expired, every component
+chosen before the sleep still has an entry in `self.wakeups`.  (The entries existed when
+chosen; in between they are only overwritten.)  For the original loop these are the
+components it is going to delete: `del self.wakeups[c]` cannot raise `KeyError`. -/
+theorem served_entries_exist (fixed : Bool) (acts : List MLoopAct) (cs : List Comp)
     (w : SimTime) :
-    let s := ({} : LoopSt).run fixed acts
+    let s := ({} : MLoopSt).run fixed acts
     s.pc = .sleptNotResumed cs w → ∀ c ∈ cs, ∃ t, alookup s.wake c = some t := by
   intro s hpc c hc
   have hb : LoopBase s := LoopBase.init.run acts
-  have := hb.served c (by simpa [hpc, LoopPc.chosen] using hc)
+  have := hb.served c (by simpa [hpc, MLoopPc.chosen] using hc)
   exact Option.isSome_iff_exists.mp this
 
-/-- L4 at the very step: when `sleptNotResumed cs w` goes on to tick, every `c ∈ cs` has an
-entry before the step and none after it, and the other entries are untouched. -/
-theorem served_entries_deleted (fixed : Bool) (acts : List LoopAct) (cs : List Comp)
-    (w : SimTime) (s' : LoopSt) :
-    let s := ({} : LoopSt).run fixed acts
-    s.pc = .sleptNotResumed cs w → s.step fixed .step = some s' → s'.pc = .ticking cs w →
-      (∀ c ∈ cs, (∃ t, alookup s.wake c = some t) ∧ alookup s'.wake c = none) ∧
-      (∀ c, c ∉ cs → alookup s'.wake c = alookup s.wake c) := by
+/-- L4 at the very step, for the repaired AND the original loop: when `sleptNotResumed`
+goes on to `ticking cs' w'`, every `c ∈ cs'` has an entry before the step (no `KeyError`)
+and none after it, and the other entries are untouched. -/
+theorem served_entries_deleted (fixed : Bool) (acts : List MLoopAct) (cs cs' : List Comp)
+    (w w' : SimTime) (s' : MLoopSt) :
+    let s := ({} : MLoopSt).run fixed acts
+    s.pc = .sleptNotResumed cs w → s.step fixed .step = some s' → s'.pc = .ticking cs' w' →
+      (∀ c ∈ cs', (∃ t, alookup s.wake c = some t) ∧ alookup s'.wake c = none) ∧
+      (∀ c, c ∉ cs' → alookup s'.wake c = alookup s.wake c) := by
   intro s hpc hs hpc'
   have hb : LoopBase s := LoopBase.init.run acts
-  have hw : s'.wake = delWakeups s.wake cs := by
-    simp only [LoopSt.step, hpc] at hs
-    split at hs
-    · simp only [Option.some.injEq] at hs; subst hs; simp at hpc'
-    · simp only [Option.some.injEq] at hs; subst hs; rfl
-  constructor
-  · intro c hc
-    refine ⟨served_entries_exist fixed acts cs w hpc c hc, ?_⟩
-    rw [hw, delWakeups_lookup _ hb.uniq]; simp [hc]
-  · intro c hc
-    rw [hw, delWakeups_lookup _ hb.uniq]; simp [hc]
+  cases fixed with
+  | true =>
+    obtain ⟨h1, _, h3⟩ := tick_serves_all_first_wakeups acts s' cs' w' hs hpc'
+    exact ⟨fun c hc => ⟨⟨w', (h1 c).mp hc⟩, by rw [h3]; simp [hc]⟩,
+      fun c hc => by rw [h3]; simp only [hc, if_false]; rfl⟩
+  | false =>
+    have hw : s'.wake = delWakeups s.wake cs' ∧ cs' = cs := by
+      simp only [MLoopSt.step, hpc] at hs
+      split at hs
+      · simp only [Option.some.injEq] at hs; subst hs; simp at hpc'
+      · simp only [Option.some.injEq] at hs; subst hs
+        simp at hpc'
+        simp [hpc'.1]
+    obtain ⟨hw, rfl⟩ := hw
+    constructor
+    · intro c hc
+      refine ⟨served_entries_exist false acts cs' w hpc c hc, ?_⟩
+      rw [hw, delWakeups_lookup _ hb.uniq]; simp [hc]
+    · intro c hc
+      rw [hw, delWakeups_lookup _ hb.uniq]; simp [hc]
+
+/-- the ORIGINAL loop violates `tick_serves_all_first_wakeups`: a wakeup of Y for time 10
+arrives while the sleep for X at 10 is expiring; the tick serves the stale set `[X]` although
+Y also holds the minimum entry 10 — Y's wakeup is left for a later tick at a time that has
+already passed. -/
+theorem old_loop_serves_stale_set :
+    let s := ({} : MLoopSt).run false staleSetHistory
+    s.step false .step =
+        some { wake := [("Y", 10)], flag := true, pc := .ticking ["X"] 10, flagTaskDone := false } ∧
+      alookup s.wake "Y" = some 10 ∧ "Y" ∉ ["X"] := by decide
+
+/-- the repaired loop serves both. -/
+theorem new_loop_serves_fresh_set :
+    (({} : MLoopSt).run true staleSetHistory).step true .step =
+      some { wake := [], flag := true, pc := .ticking ["X", "Y"] 10, flagTaskDone := false } := by
+  decide
 
 /-- **L5** the ORIGINAL loop fails the assertion on the history of defect F16. -/
-theorem old_loop_dies : (({} : LoopSt).run false f16History).pc = .dead := by decide
+theorem old_loop_dies : (({} : MLoopSt).run false f16History).pc = .dead := by decide
 
 /-- one step earlier the original loop waits with a stale flag: flag set, no wakeup —
 exactly what the invariant of the repaired loop (`LoopInv.waitIff`) excludes. -/
 theorem old_loop_stale_flag :
-    ({} : LoopSt).run false f16History.dropLast =
+    ({} : MLoopSt).run false f16History.dropLast =
       { wake := [], flag := true, pc := .waiting, flagTaskDone := false } := by decide
 
 /-- the failure does not depend on the component or on the two times: ANY wakeup for the
 component being served that arrives in the window kills the original loop when no other
 wakeup is left. -/
 theorem old_loop_dies_general (c : Comp) (t t' : SimTime) :
-    (({} : LoopSt).run false
+    (({} : MLoopSt).run false
       [.addWakeup c t, .step, .sleepExpires, .addWakeup c t', .step, .step, .step, .step]).pc
       = .dead := by
-  simp [LoopSt.run, LoopSt.step, LoopSt.choose, addWakeup, upsert, firstWakeups, minTime,
+  simp [MLoopSt.run, MLoopSt.step, MLoopSt.choose, addWakeup, upsert, firstWakeups, minTime,
     delWakeups, aerase]
 
 theorem new_loop_survives_general (c : Comp) (t t' : SimTime) :
-    ({} : LoopSt).run true
+    ({} : MLoopSt).run true
       [.addWakeup c t, .step, .sleepExpires, .addWakeup c t', .step, .step, .step, .step]
       = { wake := [], flag := false, pc := .waiting, flagTaskDone := false } := by
-  simp [LoopSt.run, LoopSt.step, LoopSt.choose, addWakeup, upsert, firstWakeups, minTime,
+  simp [MLoopSt.run, MLoopSt.step, MLoopSt.choose, MLoopSt.serveFirst, addWakeup, upsert, firstWakeups, minTime,
     delWakeups, aerase]
 
 /-- the same history is harmless for the repaired loop: it ends idle, flag clear. -/
 theorem new_loop_survives_f16 :
-    ({} : LoopSt).run true f16History =
+    ({} : MLoopSt).run true f16History =
       { wake := [], flag := false, pc := .waiting, flagTaskDone := false } := by decide
 
 end Tickit
